@@ -210,6 +210,7 @@ func unwindAztecDraw(cc *checkCtx, compact bool, layers int) []oblRes {
 //   - smallest: no ISO 24778 symbol (of all 36, sizes and capacities from aztecspec) with a
 //     smaller side length fits (C13);
 //   - too-large: the error is returned only if none of the 36 symbols fits (C10).
+//
 // The stuffed length for word size w is the uninterpreted spec function azStuffLen(bits, w)
 // constrained by the contract of stuffBits.
 func unwindAztecAuto(cc *checkCtx) []oblRes {
